@@ -157,7 +157,11 @@ func genCopyCase(e *core.Env, o copyGenOpts) *copyCase {
 	c.defaultOpts = len(c.opts) == 0
 	// pre-existing target state
 	if c.pairing != "same-repository" {
-		switch e.Choose("gen", 5, "prestate") {
+		switch e.Choose("gen", 6, "prestate") {
+		case 5:
+			// the image was copied earlier without referrers / digest-tags
+			c.preState = "complete-plain"
+			c.gr.InstallPlain(c.tgt, c.tgtRepo, c.tgtTag)
 		case 0:
 			c.preState = "empty"
 		case 1, 2:
